@@ -420,7 +420,7 @@ def translate(cfg, outdir):
                        "opt": tm.opt_insts, "set": tm.set_insts,
                        "ilist": {k: list(v) for k, v in tm.ilist_insts.items()},
                        "map": {k: list(v) for k, v in tm.map_insts.items()}},
-            "exceptions": sorted(em.exc_kinds)}
+            "exceptions": sorted(em.exc_kinds), "truncated_at_stop_call": sorted(set(em.truncated))}
     with open(os.path.join(outdir, "gen.json"), "w") as f:
         json.dump(info, f, indent=1)
     return info
